@@ -169,11 +169,12 @@ def impl_t_profile(spec):
         return stg.sine_t_profile(period=_Q(spec, 'period', 'time'), phase=spec['phase'],
                                   amplitude=spec['amplitude'], level=spec['level'])
     if k == 'periodic_gaussian_t_profile':
-        return stg.periodic_gaussian_t_profile(
-            pulse_width=_Q(spec, 'pulse_width', 'time'), period=_Q(spec, 'period', 'time'), phase=spec['phase'],
-            pulse_offset_width=_Q(spec, 'pulse_offset_width', 'time'), pulse_direction=spec['pulse_direction'],
-            pnum=spec['pnum'], amplitude=spec['amplitude'], level=spec['level'],
-            min_level=spec['min_level'], seed=spec['seed'])
+        kw = dict(pulse_width=_Q(spec, 'pulse_width', 'time'), period=_Q(spec, 'period', 'time'), phase=spec['phase'],
+                  pulse_offset_width=_Q(spec, 'pulse_offset_width', 'time'), pulse_direction=spec['pulse_direction'],
+                  pnum=spec['pnum'], amplitude=spec['amplitude'], level=spec['level'], seed=spec['seed'])
+        if spec.get('min_level') is not None:
+            kw['min_level'] = spec['min_level']          # None: the documented default floor (0) is left to the library
+        return stg.periodic_gaussian_t_profile(**kw)
     return _impl_common(spec)
 
 
@@ -353,7 +354,8 @@ class _PeriodicGaussianT(TimeComponent):
         self.p, self.ph = float(spec['period']), float(spec['phase'])
         self.pnum = int(spec['pnum'])
         self.sign = {'up': 1.0, 'down': -1.0}[spec['pulse_direction']]
-        self.amp, self.level, self.floor = float(spec['amplitude']), float(spec['level']), float(spec['min_level'])
+        self.amp, self.level = float(spec['amplitude']), float(spec['level'])
+        self.floor = 0.0 if spec.get('min_level') is None else float(spec['min_level'])
 
     def at(self, t):
         y = (t + self.ph) / self.p - 0.25
